@@ -33,7 +33,7 @@ FEATS = {"cut": 1, "ite": 1, "naf": 1, "call": 1, "arith": 1, "types": 1, "err":
 
 def run(ctx):
     rng = ctx.rng
-    nprog = ctx.scale(500, 12000)
+    nprog = ctx.scale(400, 12000)
     jobs, meta = [], {}
     dist = {"programs": 0, "regenerated_too_big": 0, "dropped_impl": 0, "dropped_model_nofuel": 0, "dropped_model_cyclic_or_unsupported": 0,
             "dropped_model_many_answers": 0, "with_exception": 0, "with_answers": 0, "no_answers": 0, "cut_in_cond_programs": 0}
